@@ -6,5 +6,6 @@ CONSTANTS
   FlushAtomic = TRUE
   LatchChecked = TRUE
   CloseLatches = TRUE
+  TimeoutReleases = FALSE
 POSTCONDITION Accepted
 CHECK_DEADLOCK FALSE
